@@ -29,3 +29,11 @@ func ZZGlobalPrecedence(t token.Type) (int, bool) {
 	v, ok := precedences[t]
 	return v, ok
 }
+
+// ZZSetContextStack presets the context stack (inductive step from an
+// arbitrary nesting depth).
+func ZZSetContextStack(p *Parser, stack []ContextType) {
+	p.contextStack = append([]ContextType(nil), stack...)
+}
+
+func ZZContextAt(p *Parser, i int) ContextType { return p.contextStack[i] }
